@@ -1,5 +1,51 @@
 /-
   Consistent sampling inside the audit-level risk limit (C07 ∘ C10 ∘ C09 ∘ C01).
+
+  `RiskLimit.lean` / `RiskLimitStyle.lean` bound the probability that the audit is EVER reported complete when the
+  status is looked at after every draw of one uniformly random order of the cards.  A real audit with style
+  information does not draw cards one by one: `assign_sample_nums` gives every card a pseudo-random sample number,
+  and in each round `consistent_sampling` selects, for per-contest sample sizes `n_c` chosen by the auditors from what
+  they have seen so far, the cards with the `n_c` smallest numbers among those listing `c`; `mvrs_to_data` then hands
+  every assertion of `c` the cards of the sample that list `c` and whose number is at most `c`'s threshold.  This file
+  puts that procedure (the literal models `assignSampleNums`, `consistentSampling`, `Rounds.step`, `dataIndices`,
+  `setPValues`, `summarizeStatus`) under the risk limit.
+
+  What "uniformly random sample numbers" is taken to mean.  `base` is `cvr_list` in its own (manifest) order; an
+  order `π` is a list of card indices, a rearrangement of `0..n-1`.  The card at position `k` of `π` receives the
+  number `num k`, `num` ANY strictly increasing function (it may even depend on `π`):
+  `cvrList base num π = assignSampleNums (fun i => num (π.idxOf i)) base` — the literal `assign_sample_nums` with a
+  generator whose `i`-th output is `num (position of i in π)`.  Every assignment of pairwise distinct numbers arises
+  this way from exactly one `π` (`sortedPairs_cvrList`: sorting by sample number gives back `π`).  The probability
+  space is the list `orders (List.range n)` of the `n!` orders, each with weight `1/n!` (`orders_length`,
+  `mem_orders_iff`, `orders_nodup`: every rearrangement exactly once) — i.e. the numbers are pairwise distinct and
+  the order they induce on the cards is uniformly distributed, as for independent draws from a continuous law or any
+  exchangeable assignment of distinct numbers.  That SHA-256 outputs behave like this is outside the proof (DESIGN 4).
+  `hitG_eq_count`: the draw-tree probability `hitG ev n R []` of the earlier files IS the fraction of these orders some
+  prefix of which satisfies `ev`.
+
+  Results (all for every `base`, every contest list with distinct ids, every data function `val`, every choice of tests):
+  1. `cs_contest_data_prefix` (every order, every size vector within range, every acceptable carried-over list):
+     the cards handed to a contest with `n_c ≥ 1` are the first `n_c` entries of the sub-order of `π` of the cards listing
+     it (`C07.contest_data_eq` / `C10.contest_data_eq_any_prev` restated on `π`), and their values are the used values
+     `(π.take k).filterMap datum` of a prefix of `π` itself.
+  2. `csLoop_prefix` / `csAudit_ever` (every order, every ADAPTIVE policy, any number of rounds, redraw or continue in
+     every round): reported complete at some round ⟹ the false assertion's p-value is at most the risk limit on the
+     used values of some prefix of `π` — the event of `audit_risk_limit_style_run`.
+  3. `consistent_sampling_audit_risk_limit`: the fraction of the `n!` orders on which `csAudit` reports completion is at
+     most the risk limit of a contest one of whose assertions is false (`csAudit_fraction_le_hitG`, `hitG_filterMap`,
+     `C01_finite_run`).
+  4. `csAudit_eq_spec` (closed form without sorting) and a kernel-checked example: 5 cards, two contests of different
+     styles, a two-round data-dependent policy; complete on 50 of the 120 orders (40 after round 1), bound 3/5.
+
+  Hypotheses, and why.  Distinct sample numbers: built in (`num` strictly increasing); with ties `sorted` falls back on
+  list order and C07 does not apply.  `SizesIn`: one size per contest and `n_c ≤ #cards listing c` (otherwise
+  `consistent_sampling` raises).  `PolicyOk`: the contest with the false assertion gets `n_c ≥ 1` in every round unless
+  that assertion was confirmed in an earlier round (see `PolicyOk`).  Sizes need NOT be non-decreasing from round to
+  round: since repair F24 a contest's data are its first `n_c` cards whatever list is carried over
+  (`C10.contest_data_eq_any_prev`), and the bound is on the event "ever, on some prefix", so a smaller later sample is
+  another prefix.  Style information on (`Rounds.step true`): without it `mvrs_to_data` does not filter by contest and
+  "a contest's own order" is not what an assertion sees.  The other contests, their assertions, tests, sizes (0 allowed)
+  and data are unconstrained; the policy may be any function of the outputs so far (and, in the capstone, even of `π`).
 -/
 import Shangrla.Props.C10
 import Shangrla.Props.RiskLimitStyle
@@ -748,7 +794,16 @@ theorem pLe_style_run_bound {α : Type} (d : α → Option ℚ) (T0 : SeqTest) (
   | ok r => rw [hTd] at hd; simp only [Bool.or_eq_true]; exact Or.inl hd
   | error e => rw [hTd] at hd; cases hd
 
-/-- **Risk limit of the audit with consistent sampling** -/
+/-- **Risk limit of the audit with consistent sampling.**  `base`: the cards in manifest order (styles; sample
+numbers are overwritten); `num π`: any strictly increasing numbering along the order `π`; `cons0`: the contests as
+`consistent_sampling` sees them (distinct ids; initial sizes and thresholds arbitrary); `s`, `T`, `val`: the contests
+with their assertions and risk limits, the test of every assertion, the datum of every card for every assertion;
+`policy π seen`: the sizes and the redraw / continue flag of the next round, ANY function of the outputs `seen` of
+the rounds so far (the extra argument `π` makes the statement cover even policies that peek at the order) subject to
+`PolicyOk`; `K`: any number of rounds.  If assertion `a` of contest `c` is false — the values of the cards listing
+`c` lie in `[0, u]` and average at most `t`, its test is any shipped `NonnegMean` test in its documented range with
+`N` = the number of cards listing `c` — then the audit is reported complete, at whatever round, on at most the
+fraction `c.riskLimit` of the `n!` equally likely orders of the sample numbers. -/
 theorem consistent_sampling_audit_risk_limit (base : List Sampling.Card) (num : List Nat → Nat → Nat)
     (hnum : ∀ π, StrictMono (num π)) (cons0 : List Sampling.Contest) (hids : (cons0.map (·.id)).Nodup)
     (val : String → String → Nat → ℚ) (T : String → String → SeqTest)
